@@ -710,6 +710,8 @@ def enc(r, v, sc):
         return bytes(out)
     if k == "ByteSwapped":
         return bytes(reversed(enc(a[0], v, sc)))
+    if k == "BitsSwapped":
+        return bytes(REV8[x] for x in enc(a[0], v, sc))
     if k == "ProcessXor":
         key = ev(a[0], sc)
         if isinstance(key, int):
@@ -728,6 +730,9 @@ def enc(r, v, sc):
         body = enc(a[0], v, top_scope(dict_public(sc)))
         return (zlib.compress(body) if len(a) < 3 or a[2] is None else zlib.compress(body, a[2])) if a[1] == "zlib" else (bz2.compress(body) if len(a) < 3 or a[2] is None else bz2.compress(body, a[2]))
     raise ModelGap(k)
+
+
+REV8 = [int("{:08b}".format(i)[::-1], 2) for i in range(256)]
 
 
 def rotl(data, amount, group):
@@ -1224,6 +1229,17 @@ def dec(r, buf, pos, end, sc):
         b, p2 = take(buf, pos, end, n)
         v, _ = dec(a[0], bytes(reversed(b)), 0, n, sc)
         return v, p2
+    if k == "BitsSwapped":
+        # every byte the inner construct reads has its bit order reversed; a statically sized inner construct gets exactly its
+        # bytes, any other one reads through a byte-by-byte translating stream and consumes what it reads
+        if statically_sized(a[0], sc):
+            n = size(a[0], top_scope({}))
+            b, p2 = take(buf, pos, end, n)
+            v, _ = dec(a[0], bytes(REV8[x] for x in b), 0, n, sc)
+            return v, p2
+        data = bytes(REV8[x] for x in buf[pos:end])
+        v, used = dec(a[0], data, 0, len(data), sc)
+        return v, pos + used
     if k == "ProcessXor":
         key = ev(a[0], sc)
         if isinstance(key, int):
